@@ -4,6 +4,12 @@
 //!   vcheck replay <PROP> --case FILE --build LABEL --known FILE
 //!   vcheck list
 mod engine;
+#[cfg(feature = "full")]
+mod layouts;
+#[cfg(feature = "full")]
+mod mutate;
+#[cfg(feature = "full")]
+mod stone;
 mod props;
 mod refmodel;
 
